@@ -60,6 +60,7 @@ type Case struct {
 	Src    []byte `json:"src,omitempty"`  // base64 in JSON: texts contain NUL and non-UTF-8 bytes
 	SrcQ   string `json:"src_quoted,omitempty"` // the same text, Go-quoted, for the reader
 	Opt    int    `json:"opt,omitempty"`
+	Entry  string `json:"entry,omitempty"` // text: "" ExecFileOptions | eval EvalOptions | exprfunc ExprFuncOptions + Call | repl Parse + ExecREPLChunk
 	Cons   string `json:"cons,omitempty"`
 	Depth  int    `json:"depth,omitempty"`
 	Budget int    `json:"budget,omitempty"`
@@ -169,6 +170,9 @@ func (e *env) caseKey(cs *Case) string {
 	case "attr":
 		return "attr " + cs.Fn
 	case "text":
+		if cs.Entry != "" {
+			return "text via " + cs.Entry + " opt=" + optString(cs.Opt) + " " + strconv.Quote(string(cs.Src))
+		}
 		return "text opt=" + optString(cs.Opt) + " " + strconv.Quote(string(cs.Src))
 	case "nest":
 		return fmt.Sprintf("nest %s depth=%d", cs.Cons, cs.Depth)
@@ -1023,7 +1027,11 @@ func (w *wk) runLevels() {
 		{"L3a calls: 2 arguments (full pool squared)", func() { w.callLevel(2) }},
 		{"L3b calls: keyword lists", func() { w.kwLevel() }},
 		{"L3c texts: length 3 x options {none, all}", func() { w.textLevel(3, false, []int{0, 63}) }},
-		{"L3c2 texts: 56 valid texts over every group of productions, each with every single-token deletion, duplication, swap, replacement and insertion (full alphabet) x options {none, all}", func() { w.mutationLevel([]int{0, 63}) }},
+		{"L3c2 texts: 56 valid texts over every group of productions, each with every single-token deletion, duplication, swap, replacement and insertion (full alphabet) x options {none, all}", func() { w.mutationLevel([]int{0, 63}, []string{""}) }},
+		{"L3c3 texts: the length-3 strings and the mutations of L3c2 through the other entry points (EvalOptions, ExprFuncOptions + Call, Parse + ExecREPLChunk) x options {all}", func() {
+			w.textLevelVia(3, false, []int{63}, otherEntries)
+			w.mutationLevel([]int{63}, otherEntries)
+		}},
 		{"L3d nesting family: depths 101..1000 (decades and both sides of powers of two)", func() { w.nestLevel(101, 1000) }},
 		{"L4a calls: 3 arguments (sub-pool cubed)", func() { w.callLevel(3) }},
 		{"L4b graphs: 3 nodes", func() { w.graphLevel(3) }},
